@@ -222,6 +222,8 @@ EXTRA = [
     ("VERIFIER", ["C09"], "TLA+ spec Verifier: the stand-alone floorplan verifier tools/verifier judged against Legal!Clauses"),
     ("LEGALPOST", ["C09"], "TLA+ spec LegalPost: legaliser post-processing turn_off_rects / fuse_rects contracts"),
     ("KK", ["C13"], "TLA+ spec KamadaKawai: step contract of the Kamada-Kawai relocation stage (graph distances exact)"),
+    ("NETGEN", ["C19"], "TLA+ spec Netgen: the expected design of every generator command line (names, unit areas, net graph, grid centres; "
+     "classes nonsense / degenerate / defined) model-checked for structural lemmas; netgen.main run twice per command line and judged by TLC"),
     ("NETAPI", ["C04", "C05", "C13"], "TLA+ spec NetApi: the loaded Netlist/Module as a mutable object: mutators, cached views, coherence"),
 ]
 
